@@ -23,11 +23,22 @@ def sample(cases, n, seed):
     return [cases[i] for i in idx]
 
 
+def c06_post(cases, tier, seed):
+    out = []
+    for i, c in enumerate(cases):
+        d = dict(c)
+        d["case"] = "C06-%d" % (i + 1)
+        out.append(d)
+    return out
+
+
 def c12_post(cases, tier, seed):
     """every pooled module under optimize=true and optimize=false (other options as enumerated)"""
     cases = sample(cases, 6000 if tier == "quick" else 60000, seed)
     out = []
-    for c in cases:
+    for i, c in enumerate(cases):
+        if "case" not in c:
+            c = dict(c, case="V%d" % i)
         for flag in (True, False):
             d = dict(c)
             d["opts"] = dict(c["opts"], optimize=flag)
@@ -105,7 +116,7 @@ PROPS = {
     ),
     "C12": dict(
         mc=[dict(module="MC_C01"), dict(module="MC_C03"), dict(module="MC_C04"), dict(module="MC_C05"), dict(module="MC_C13"),
-            dict(module="MC_C02")],
+            dict(module="MC_C02"), dict(module="MC_C06", heap="10g")],
         post=c12_post, group_by=lambda cid: cid.split("#")[0],
         judge="Judge_C12", want=["js"],
         rule="the pooled modules enumerated for C01-C05 and C13 (all attribute/children/slot/directive/v-model shapes, "
@@ -114,6 +125,19 @@ PROPS = {
              "optimize=true run carries at least one hint",
         exhaustive=dict(quick=False, thorough=False),
         assumptions=["hints = arguments 4-5 of vnode calls and the `_` entry of slot objects"],
+    ),
+    "C06": dict(
+        mc=[dict(module="MC_C06", heap="10g")], post=c06_post, judge="Judge_C06", want=["js", "scope"],
+        rule="TLC model-checks Visitor.tla (the traversal state machine: pending-declaration frames, slot counter, assignment "
+             "target, helper/import flags) over ALL module histories up to the bounds (items: JSX sites needing no temporary / a "
+             "call temporary / the captured-identifier path, assignments, functions, default parameters, arrows, nested arrows, "
+             "blocks, class fields) with ScopeOK, NoLeak, DeclsUsed, NoDuplicateDecl, HelperIffNeeded, CaptureOnlyOwn, "
+             "CaptureWhenOwn as invariants; every terminal state is replayed on the real visitor and judged on free variables, "
+             "binding identity through printing, generated-binding use, runtime errors and site values; the real hook trace is "
+             "validated against the model's predicted trace; non-trivial = the model predicts more than two scope events",
+        exhaustive=dict(quick=True, thorough=True),
+        assumptions=["initialisation order (TDZ) is observed by executing the output, not derived statically",
+                     "a site that is never evaluated (body of an arrow nobody calls) is only checked statically"],
     ),
     "C02": dict(
         mc=[dict(module="MC_C02")], judge="Judge_C02", want=["js"],
